@@ -288,13 +288,16 @@ func validateConfigs(cfg []*configpb.LogConfig) error {
 		if _, err := ValidateLogConfig(logCfg); err != nil {
 			return fmt.Errorf("log config: %v: %v", err, logCfg)
 		}
-		if len(logCfg.Prefix) == 0 {
+		// Prefixes are compared in the form under which the handlers of the
+		// log are registered ("log", "/log" and "/log/" are the same prefix).
+		prefix := canonicalPrefix(logCfg.Prefix)
+		if len(prefix) == 0 {
 			return fmt.Errorf("log config: empty prefix: %v", logCfg)
 		}
-		if logNameMap[logCfg.Prefix] {
+		if logNameMap[prefix] {
 			return fmt.Errorf("log config: duplicate prefix: %s: %v", logCfg.Prefix, logCfg)
 		}
-		logNameMap[logCfg.Prefix] = true
+		logNameMap[prefix] = true
 	}
 
 	return nil
